@@ -6,6 +6,7 @@ HIST_RULE = ("seeded operation histories (case idx -> PRNG seed) over engineered
              "operations and crossed at least one growth step (maps) / has >= 10 operations (stacks)")
 
 ENGINE_KINDS = {
+    "module": "edit histories on Module/Card (get/insert/remove/replace/swap/walk, child API) vs an independent owned-tree model, compared by card id after every edit",
     "hashmap": "operation histories on CaoHashMap vs BTreeMap model in lock-step, drop registry, allocation-failure sweep through the allocator hook",
     "handletable": "operation histories on HandleTable vs BTreeMap model in lock-step, drop registry, logical hang guard (len == capacity)",
     "stacks": "operation histories on ValueStack / BoundedStack vs Vec models, drop registry",
@@ -74,5 +75,19 @@ CHECKS = {
             "push with exactly one free slot may succeed or fail (the statement only requires success with two free slots)",
             "the value returned by clear_until and truncation to a height above the current one are not judged",
         ],
+    },
+    "C16": {
+        "level": "exploration",
+        "level_text": "Held on the sampled edit histories only: modules containing every card kind (all 43 enumerated in the first function, random nesting to depth 4) are edited through the public index API with valid and invalid indices (one past the end, too deep, into leaves, missing function, empty index, lhs == rhs, ancestor/descendant pairs); after every edit the module is compared card-id by card-id with an independently written tree model, child enumeration/count/lookup are cross-checked for every card, and walk_cards is checked to visit each card once with an index that looks up to it.",
+        "level_note": "Trusted: the harness' own table of child slots per card kind (written from the CardBody doc comments) and the documented insert semantics (list kinds insert, fixed-slot kinds replace). For fixed slots 'remove' is only required to return the card and keep the slot (the reset-to-default card is not compared). swap(x, x) may succeed or fail but must not change the module.",
+        "technique": "runtime monitoring: seeded edit histories against an executable tree-edit model, full module comparison by card identity after every edit, law checks (insert/remove, replace/replace-back, swap/swap)",
+        "rule": "seeded modules (every card kind) and edit histories; distinct by JSON hash of the case; non-trivial when the history has >= 8 edits and ran to the end",
+        "engines": [
+            {"engine": "module", "profile": "dev", "cases": {"quick": 2000, "thorough": 60000}, "primary": True},
+        ],
+        "hard_floor": {"evaluations": 100, "counters": {"edits_compared": 1000}},
+        "targets": {"quick": {"edits_compared": 100000, "failing_edits_checked_for_noop": 5000, "law:.*": 3000},
+                    "thorough": {"edits_compared": 2000000, "failing_edits_checked_for_noop": 100000, "law:.*": 100000}},
+        "assumptions": ["child slot layout per card kind as documented in card.rs", "card identity is Card.id"],
     },
 }
